@@ -21,6 +21,7 @@ func checkC10(c *Check, a *Anchors) {
 	c10OSEnvWins(c, a)
 	c10PhaseSources(c, a)
 	environIsLowest(c, a)
+	c10EveryDeclaredVarStored(c, a)
 }
 
 // phaseOf classifies the expression a getVariables loop ranges over.
@@ -905,4 +906,65 @@ func rangingHelper(c *Check, h *FuncBody) bool {
 	})
 	// every return inside the loop returns the error; the final return is nil
 	return ok
+}
+
+// c10EveryDeclaredVarStored: a key that is declared in a vars: / env: mapping is a variable of that level whatever its value
+// (null included): it must override the same name of a lower level.
+func c10EveryDeclaredVarStored(c *Check, a *Anchors) {
+	c.Rule("every-declared-var-stored", "in Vars.UnmarshalYAML the store of the decoded variable is reached for every key of the mapping: in the loop body nothing but a decode-error return precedes it (no `continue` for null / empty values). A key that is skipped does not exist at its level, so a lower-priority value of the same name shows through — `FOO:` in a task's vars would no longer override the global FOO")
+	fb := c.P.Func(PkgAst, "Vars", "UnmarshalYAML")
+	if fb == nil {
+		c.Errorf("every-declared-var-stored: Vars.UnmarshalYAML not found")
+		return
+	}
+	c.Fn(fb)
+	info := fb.Info()
+	n := 0
+	var walkLoops func(nd ast.Node)
+	walkLoops = func(nd ast.Node) {
+		inspectBody(nd, func(m ast.Node) bool {
+			var body *ast.BlockStmt
+			switch x := m.(type) {
+			case *ast.ForStmt:
+				body = x.Body
+			case *ast.RangeStmt:
+				body = x.Body
+			}
+			if body == nil {
+				return true
+			}
+			// the store: a top-level statement of the loop body calling Set on the receiver (or its map)
+			for i, st := range body.List {
+				es, ok := st.(*ast.ExprStmt)
+				if !ok {
+					continue
+				}
+				call, ok := ast.Unparen(es.X).(*ast.CallExpr)
+				if !ok {
+					continue
+				}
+				fn, _ := callee(info, call).(*types.Func)
+				if fn == nil || fn.Name() != "Set" {
+					continue
+				}
+				n++
+				skipped := ""
+				for _, prev := range body.List[:i] {
+					if hasJumpOtherThanErrReturn(prev) {
+						skipped = exprStr1(c.P, prev)
+					}
+				}
+				c.Decide(skipped == "", "every-declared-var-stored", "store@"+fnDisplay(fb), call.Pos(), "every key of the mapping is stored (only a decode error leaves the loop earlier)",
+					"a statement before the store can leave the iteration without storing the key ("+skipped+"): a declared variable with such a value does not exist at its level and a lower-priority value of the same name shows through")
+			}
+			return true
+		})
+	}
+	walkLoops(fb.Body)
+	c.Floor("every-declared-var-stored", n, 1)
+}
+
+func exprStr1(p *Prog, n ast.Node) string {
+	pos := p.Fset.Position(n.Pos())
+	return fmt.Sprintf("statement at line %d", pos.Line)
 }
